@@ -327,6 +327,14 @@ class Engine(
 
     def append_binary(self, operation: BinaryOperation, lhs: Relation, rhs: Relation) -> Select:
         # Docstring inherited.
+        match operation:
+            case IgnoreOne(ignore_lhs=ignore_lhs):
+                # The operand that is kept may belong to a different engine
+                # (a join to this engine's join identity relation), in which
+                # case it must be returned as-is, not wrapped in a Select.
+                kept = rhs if ignore_lhs else lhs
+                if kept.engine != self:
+                    return kept
         conformed_lhs = self.conform(lhs)
         conformed_rhs = self.conform(rhs)
         return self._append_binary_to_select(operation, conformed_lhs, conformed_rhs)
